@@ -6,6 +6,7 @@ from common import Outcome, MachineryError
 # property -> family module (filled as the families are built)
 FAMILY_OF = {
     'C17': 'fam_cal',
+    'C01': 'fam_graph', 'C05': 'fam_graph', 'C11': 'fam_graph', 'C15': 'fam_graph', 'C16': 'fam_graph',
 }
 
 QUICK_BUDGET_S = 900
@@ -123,7 +124,7 @@ def run(prop, tier, replay):
         if not os.path.exists(common.DRIVER):
             raise MachineryError('the driver cannot be built; nothing can be decided')
     obligations, discharged, detail = common.audit(prop) if b.get('prop_ok') else (common.theorems_of(prop), [], {})
-    forb = common.forbidden_tokens()
+    forb = common.forbidden_tokens(prop)
     if forb:
         proof_broken = {'stage': 'forbidden construct', 'hits': forb[:10]}
     if set(obligations) != set(discharged) and not proof_broken:
